@@ -2,9 +2,12 @@
 """Copies confirmed seeded changes from the sub-agents' scratch area into /verif/seeded/<id>/
 (patch.diff, demo.rs, notes.md extract, meta.json). Development tool; not used by any check."""
 import json, os, re, shutil, sys
-SRC = "/tmp/seedwork"
+# usage: collect_seeds.py [round]   round 1: /tmp/seedwork, ids <prop>-m<k>; round 2: /tmp/seed2, ids <prop>-n<k>
+ROUND = int(sys.argv[1]) if len(sys.argv) > 1 else 1
+SRC = "/tmp/seedwork" if ROUND == 1 else "/tmp/seed2"
+LETTER = "m" if ROUND == 1 else "n"
 DST = "/verif/seeded"
-META = json.load(open(os.path.join(os.path.dirname(__file__), "seed_meta.json")))
+META = json.load(open(os.path.join(os.path.dirname(__file__), "seed_meta.json" if ROUND == 1 else "seed_meta2.json")))
 confirm = {}
 for line in open(os.path.join(SRC, "CONFIRM.txt")):
     m = re.match(r"(C\d+) (m\d) demo_clean_rc=(\d+) suite_with_patch_rc=(\d+) demo_with_patch_rc=(\d+)", line)
@@ -12,6 +15,7 @@ for line in open(os.path.join(SRC, "CONFIRM.txt")):
         confirm[(m.group(1), m.group(2))] = tuple(int(x) for x in m.groups()[2:])
 for key, meta in META.items():
     prop, mn = key.split("-")
+    mn = "m" + mn[1:]  # file names of the sub-agents are always m1 / m2
     c = confirm.get((prop, mn))
     if not c or c[0] != 0 or c[1] != 0 or c[2] == 0:
         print("skip (not confirmed):", key, c)
@@ -34,7 +38,9 @@ for key, meta in META.items():
         "title": meta["title"],
         "site": meta["site"],
         "needs_to_manifest": meta["needs"],
-        "origin": "fresh sub-agent given only the property text and a scratch worktree of /repo (nothing from /verif)",
+        "round": ROUND,
+        "origin": "fresh sub-agent given only the property text and a scratch worktree of /repo (nothing from /verif)" + (
+            "; round 2: the agent was also told which functions round 1 had already changed, to get different sites" if ROUND == 2 else ""),
         "confirmed_by_me": {
             "how": "in the scratch worktree: `cargo test -p gamedig --test <demo>` on the clean tree; `git apply patch.diff`; "
                    "`cargo test --workspace --offline` (existing suite, RUST_BACKTRACE unset); the demo again with the patch",
